@@ -243,7 +243,7 @@ IndexOf(seq, x) == IF x \in Rng(seq) THEN MinOf({i \in 1..Len(seq) : seq[i] = x}
    (`change`); a second connection presents the result. *)
 Demand31(o) ==
   TicketDemand(~o.changed, IndexOf(ApplyHist(o.keys0, o.hist), Head(o.keys0)),
-               o.change # "server_max_lower", o.change # "server_drops_suite")
+               o.change # "server_max_lower", o.change \notin {"server_drops_suite", "client_drops_suite"})
 
 Judge31(o) ==
   LET i == o.issue  p == o.present  d == Demand31(o) IN
